@@ -11,7 +11,7 @@ Definition listN_eqb := list_eqb N.eqb.
 Definition qres_num (r : qres) : N :=
   match r with QKind Tracked => 0 | QKind NoOp => 1 | QErr => 2 end.
 
-(** kind case: the events one facade object saw (starts on its NodeHost and its own GetSession
+(** kind case: the events one facade object saw (starts / stops on its NodeHost and its own GetSession
     calls, in execution order) and the observed answers, one per query *)
 Definition kcase (evs : list event) (obs : list N) : bool :=
   listN_eqb (map qres_num (run evs)) obs.
